@@ -235,3 +235,22 @@ Proof.
   split; [rewrite (He eq_refl); exact Herr|].
   intros t i. rewrite Hp. apply Hfind.
 Qed.
+
+(* non-vacuity of the pod-set theorems: scale 3 -> 2 with a missing replica, a
+   surplus pod, an out-of-sync pod and a dependent task *)
+Definition ex_spec : spec :=
+  mkSpec [mkTask 1 2 (Some 1) [] None; mkTask 2 1 None [] (Some (false, [1%positive]))] 2 None 3 [].
+Definition ex_pods : list pod :=
+  [mkPod 1 1 PRunning false true; mkPod 1 2 PRunning false false].
+Example pod_set_example :
+  NoDup (map t_name (s_tasks ex_spec)) /\ NoDup (pod_ids ex_pods) /\
+  pass true ex_spec ex_pods =
+    [mkPod 1 0 PPending false false; mkPod 1 1 PRunning true true; mkPod 1 2 PRunning true false;
+     mkPod 2 0 PPending false false] /\
+  pass true ex_spec (pass true ex_spec ex_pods) = pass true ex_spec ex_pods /\
+  pass true ex_spec (a_pods (sync_pods ex_spec ex_pods ex_pods [FCreate 1 0; FDelete 1 2])) = pass true ex_spec ex_pods.
+Proof.
+  split; [repeat constructor; cbn; intuition congruence|].
+  split; [repeat constructor; cbn; intuition congruence|].
+  vm_compute. repeat split.
+Qed.
